@@ -263,7 +263,13 @@ class Check:
         if explanation:
             cov["explanation"] = explanation
         cov.update(self.extra_cov)
-        ev = dict(property_id=self.pid, tier=self.tier, seed=self.seed, level=self.level, coverage=cov,
+        level = self.level
+        if level == "proof" and discharged != obligations:
+            # a proof-level record needs every obligation discharged: a run with undecided obligations is recorded one level down
+            level = "model_checking"
+            cov["explanation"] = (cov.get("explanation", "") + " THIS RUN left %d of %d obligations undecided (inconclusive), so it is recorded "
+                                  "at model_checking level; the proof-level claim needs a run with obligations == discharged." % (obligations - discharged, obligations)).strip()
+        ev = dict(property_id=self.pid, tier=self.tier, seed=self.seed, level=level, coverage=cov,
                   assumptions=list(self.assumptions), wall_s=round(time.time() - self.t0, 2),
                   violations=len(viol))
         with open(os.path.join(OUT, "evidence", "%s.json" % self.pid), "w") as f:
